@@ -503,3 +503,132 @@ def same_value(a, b):
 
 def same_key(a, b):
     return a == b
+
+
+# =========================================================================================
+# D0: preconditions of the thin arithmetic wrappers, pushed to their callers
+# =========================================================================================
+# wrapper path -> (index of the divisor argument, projection to add, description)
+DIVISOR_OF = {
+    "<&'a types::bigrat::BigRat as core::ops::arith::Div>::div": (1, ()),
+    "<&'a types::bigrat::BigRat as core::ops::arith::Rem>::rem": (1, ()),
+    "<&'a types::bigint::BigInt as core::ops::arith::Div>::div": (1, ()),
+    "<&'a types::bigint::BigInt as core::ops::arith::Rem>::rem": (1, ()),
+    "types::bigrat::BigRat::ratio": (1, ()),
+    "types::bigrat::BigRat::small_ratio": (1, ()),
+    "<&'a types::numeric::Numeric as core::ops::arith::Div<&'b types::numeric::Numeric>>::div": (1, ()),
+    "<&'a types::numeric::Numeric as core::ops::arith::Rem<&'b types::numeric::Numeric>>::rem": (1, ()),
+    "types::numeric::Numeric::div_rem": (1, ()),
+    "types::numeric::Numeric::from_frac": (1, ()),
+    "types::number::Number::invert": (0, ("value",)),
+}
+WRAPPER_SITE_FNS = set(DIVISOR_OF) | {"<types::bigrat::BigRat as core::convert::From<f64>>::from"}
+
+NZ_CALLS = ("types::numeric::Numeric::one", "types::bigint::BigInt::one", "types::bigrat::BigRat::one", "types::number::Number::one")
+
+
+def nonzero(fn, ap, depth=0):
+    """Is the value described by access path `ap` provably non-zero? Returns reason or None."""
+    if depth > 6:
+        return None
+    root, projs = ap
+    if root[0] == "const":
+        return "constant %s" % root[1] if root[1] not in (0, "0") else None
+    if root[0] == "call":
+        n = root[1]
+        if n in NZ_CALLS and not projs:
+            return n.split("::")[-2] + "::one()"
+        if n == "types::number::Number::one" and projs == ("value",):
+            return "Number::one().value"
+        if "core::convert::From<" in n and n.endswith(">::from") and root[2] and root[2][0][0][0] == "const":
+            v = root[2][0][0][1]
+            return ("from(%s)" % v) if v not in (0, "0") else None
+        if n.endswith(("types::bigrat::BigRat::denom",)) and not projs:
+            return "a denominator is never zero"
+        if n.endswith(("types::bigint::BigInt::pow", "types::numeric::Numeric::pow", "types::numeric::Numeric::abs", "types::bigrat::BigRat::abs", "Clone>::clone")) and not projs and root[2]:
+            r = nonzero(fn, root[2][0], depth + 1)
+            return ("%s of non-zero (%s)" % (n.split("::")[-1], r)) if r else None
+        if "core::convert::From<types::bigint::BigInt>>::from" in n or "core::convert::From<types::bigrat::BigRat>>::from" in n:
+            r = nonzero(fn, root[2][0], depth + 1)
+            return r
+        if n.endswith("types::bigrat::BigRat::ratio") and root[2]:
+            r = nonzero(fn, root[2][0], depth + 1)
+            return ("ratio with non-zero numerator (%s)" % r) if r else None
+        if n.endswith(("arith::Mul<&'b types::numeric::Numeric>>::mul", "as core::ops::arith::Mul>::mul")) and len(root[2]) == 2:
+            a, b = nonzero(fn, root[2][0], depth + 1), nonzero(fn, root[2][1], depth + 1)
+            return "product of non-zero values" if a and b else None
+        if n.endswith("types::number::Number::powi") and projs == ("value",) and root[2]:
+            r = nonzero(fn, (root[2][0][0], root[2][0][1] + ("value",)), depth + 1)
+            return ("power of non-zero (%s)" % r) if r else None
+    if root[0] == "agg" and root[1] == "types::number::Number::Number" and projs[:1] == ("value",):
+        return nonzero(fn, (root[2][0][0], root[2][0][1] + projs[1:]), depth + 1)
+    return None
+
+
+def value_reset_to_one(fn, op, bb):
+    """The operand borrows a local whose `.value` was assigned Numeric::one() on every path (dominating assignment)."""
+    import c03
+    l = c03.underlying_local(fn, op)
+    if l is None:
+        return False
+    for i, j, st in fn.stmts():
+        pl = st.get("place")
+        if st["k"] == "assign" and pl and pl["l"] == l and len(pl["p"]) == 1 and isinstance(pl["p"][0], dict) and pl["p"][0].get("f") == "value" and st["rv"]["k"] == "use" and fn.dominates(i, bb):
+            src = fn.apath(st["rv"]["a"])
+            if src[0][0] == "call" and src[0][1].endswith("types::numeric::Numeric::one") and not src[1]:
+                return True
+    return False
+
+
+def divisor_obligations(F, reach):
+    """[(fn, bb, term, wrapper, divisor access path)] for every call of a divisor-taking wrapper in the reachable set."""
+    out = []
+    for fid in reach:
+        fn = F.fns[fid]
+        if fn.crate != CORE:
+            continue
+        for bb, t in fn.calls():
+            if "callee" not in t:
+                continue
+            p = t["callee"]["path"]
+            if p in DIVISOR_OF:
+                idx, extra = DIVISOR_OF[p]
+                ap = fn.apath(t["args"][idx])
+                ap = (ap[0], ap[1] + extra)
+                out.append((fn, bb, t, p, ap, idx))
+    return out
+
+
+def decide_divisor(F, fn, bb, t, wrapper, ap, idx):
+    # 1. the caller is itself a wrapper and the divisor is its own divisor parameter: pushed further up
+    if fn.path in DIVISOR_OF:
+        pidx, pextra = DIVISOR_OF[fn.path]
+        if ap[0] == ("arg", pidx + 1):
+            return ("D0", "divisor is this wrapper's own parameter: precondition pushed to its callers")
+    # float arms: IEEE division does not panic
+    import k4
+    if k4.float_guarded(fn, bb):
+        return ("D0", "float arm (IEEE division does not panic)")
+    r = nonzero(fn, ap)
+    if r:
+        return ("D0", "divisor is non-zero by construction: " + r)
+    if ap[1][-1:] == ("value",) and value_reset_to_one(fn, t["args"][idx], bb):
+        return ("D0", "divisor's value was reset to Numeric::one()")
+    # 2. an exact zero test of the same value guards the call
+    def acc(kind, gap, info):
+        if kind != "bool":
+            return None
+        r = gap[0]
+        if r[0] == "call" and r[1] in ("<types::numeric::Numeric as core::cmp::PartialEq>::eq", "<types::numeric::Numeric as core::cmp::PartialEq>::ne",
+                                        "<types::bigint::BigInt as core::cmp::PartialEq>::eq", "<types::bigint::BigInt as core::cmp::PartialEq>::ne",
+                                        "<types::bigrat::BigRat as core::cmp::PartialEq>::eq", "<types::bigrat::BigRat as core::cmp::PartialEq>::ne"):
+            args = r[2]
+            zero = [a for a in args if a[0][0] == "call" and a[0][1].endswith(("::zero",))] + [a for a in args if a[0][0] == "agg" and "Float" in a[0][1]]
+            other = [a for a in args if a not in zero]
+            if zero and other and same_value(other[0], ap):
+                return {"false"} if r[1].endswith("::eq") else {"true"}
+        return None
+    res, matched = k2.cut_gate(fn, [bb], acc)
+    if matched and res[bb]:
+        return ("D0", "behind an exact zero test of the divisor")
+    return None
